@@ -24,20 +24,33 @@ CL_ROOTS = ["EbpfVmMbuff::cranelift_compile", "EbpfVmFixedMbuff::cranelift_compi
 IMPURE = re.compile(r"time::|Instant|SystemTime|rand|thread::current|env::|getrandom|RandomState")
 
 
-def jit_rows():
+def field_by_type(F, adt, ty_re):
+    """name of the one field of `adt` whose type matches (fields are found by what they hold, not by what they are
+    called); None when there is no such field or more than one"""
+    a = (F.adts or {}).get(adt) or {}
+    hits = [f["name"] for v in a.get("variants", []) for f in v.get("fields", []) if re.search(ty_re, f.get("ty") or "")]
+    return hits[0] if len(hits) == 1 else None
+
+
+def jit_rows(F=None, counter=None):
+    # the table of code offsets per instruction (a vector of usize in the compiler state) and the write position of
+    # the code memory (its one usize field)
+    LOCS = re.escape((field_by_type(F, "jit::JitCompiler", r"^(std|alloc)::vec::Vec<usize>$") if F else None) or "pc_locs")
+    POS = re.escape((field_by_type(F, "jit::JitMemory", r"^usize$") if F else None) or "offset")
+    CNT = re.escape(counter or "insn_ptr")      # the generator's instruction index (the variable its loop guard bounds)
     return [
         Row("emit-bound", r"^jit::(JitCompiler|JitMemory)::emit", r"^panic!assert@$", "D3",
             "the emit macro's bounds assert cannot fire in the writing pass: the buffer was sized by the counting pass, "
             "which runs the same generator on the same arguments (R12.b) and the generator is deterministic (R12.e)",
             cites=("R12.b", "R12.e")),
-        Row("emit-offset", r"^jit::(JitCompiler|JitMemory)::emit", r"^Overflow\(Add\)\(\*arg[12]<&mut jit::JitMemory<'_>>\.offset,mem::size_of\(\)\)$", "A",
+        Row("emit-offset", r"^jit::(JitCompiler|JitMemory)::emit", r"^Overflow\(Add\)\(\*arg[12]<&mut jit::JitMemory<'_>>\." + POS + r",mem::size_of\(\)\)$", "A",
             "code size is below 2^32: at most 1,000,000 instructions (C06) of a bounded number of bytes each"),
         Row("rex-bits", r"^jit::JitCompiler::emit_(rex|modrm)$", r"^panic!assert_eq@$", "D1",
             "no arm, for any register pair, reaches the assert with other values: decided by evaluating every arm (R12.f)",
             cites=("R12.f",)),
-        Row("pc-locs", r"^jit::JitCompiler::jit_compile$", r"^index:IndexMut<I>>::index_mut\(&\*arg1<&mut jit::JitCompiler>\.pc_locs,mut<usize>\)$", "D1",
+        Row("pc-locs", r"^jit::JitCompiler::jit_compile$", r"^index:IndexMut<I>>::index_mut\(&\*arg1<&mut jit::JitCompiler>\." + LOCS + r",mut<usize>\)$", "D1",
             "pc_locs has n+1 entries (R12.m) and the loop guard keeps the index below n", cites=("R12.m",)),
-        Row("pc-locs-assert", r"^jit::JitCompiler::jit_compile$", r"^panic!debug_assert@\[insn_ptr < self\.pc_locs\.len\(\)\]$", "D1",
+        Row("pc-locs-assert", r"^jit::JitCompiler::jit_compile$", r"^panic!debug_assert@\[" + CNT + r" < self\." + LOCS + r"\.len\(\)\]$", "D1",
             "the same fact as the indexing it precedes: pc_locs has n+1 entries (R12.m) and the loop guard keeps the index below n", cites=("R12.m",)),
         Row("map-register", r"^jit::JitCompiler::jit_compile$", r"^precond:jit::map_register<-", "D3",
             "register numbers of a verified program are <= 10, and the loop only decodes verified slots", cites=("C06/R06.b", "R12.k")),
@@ -45,13 +58,13 @@ def jit_rows():
             "the verifier refuses TAIL_CALL", cites=("C06/R06.a",)),
         Row("endian", r"^jit::JitCompiler::jit_compile$", r"^panic!unreachable@u8=(212|220)(,(212|220))?;i32!in\[16,32,64\]$", "D3",
             "LE/BE immediates of a verified program are 16/32/64", cites=("C06/R06.b",)),
-        Row("fixup-index", r"^jit::JitCompiler::resolve_jumps(::\{closure#\d+\})?$", r"^index:Index<I>>::index\(&\*(arg1<&mut jit::JitCompiler>\.pc_locs|upvar<&self\.pc_locs>),", "D3",
+        Row("fixup-index", r"^jit::JitCompiler::resolve_jumps(::\{closure#\d+\})?$", r"^index:Index<I>>::index\(&\*(arg1<&mut jit::JitCompiler>\." + LOCS + r"|upvar<&self\." + LOCS + r">),", "D3",
             "recorded jump targets are either special anchors or instruction indexes the verifier validated (< n <= len(pc_locs)-1)",
             cites=("C06/R06.b", "R12.j")),
         Row("fixup-arith", r"^jit::JitCompiler::resolve_jumps$", r"^Overflow\((Add|Sub)\)\(", "A",
             "code offsets are below 2^31 (code size bound as above)"),
         Row("page-round", r"^jit::JitMemory::\w+$", r"^precond:jit::round_up_to_page<-", "A", "code size is far below usize::MAX - 4096"),
-        Row("fetch", r"::jit_compile$", r"^precond:(jit::)?JitMemory::new<-", "D3",
+        Row("fetch", r"^EbpfVm\w+::\w+$", r"^precond:(jit::)?JitMemory::new(@ebpf::get_insn)?<-", "D3",
             "the program is the verified one stored by set_program/new: 8 | len, pc < n under the loop guard, wide loads are not last",
             cites=("C06/R06.d", "C10/R10.b")),
     ]
@@ -82,8 +95,9 @@ def two_pass(F, gen, ctor="jit::JitMemory::new"):
             probs.append("a pass does not get the constructor's own arguments")
     # the size must come from the counting pass: its `offset` is read in the constructor or a helper of it
     from dispatch import thir_reach
+    pos = field_by_type(F, "jit::JitMemory", r"^usize$")     # the write position of the code memory (its one usize field)
     readers = [p for p in thir_reach(F, [ctor]) if p != gen and not p.startswith(gen + "::") and p.startswith("jit::JitMemory") and F.fns[p].get("thir")
-               and any(n.get("k") == "field" and n.get("name") == "offset" for n in walk(F.fns[p]["thir"]["body"]))]
+               and any(n.get("k") == "field" and n.get("name") == pos for n in walk(F.fns[p]["thir"]["body"]))]
     if not readers:
         probs.append("the counting pass's offset is never read")
     return not probs, sorted(set(probs)) or {"passes": sigs[0], "size_read_in": readers}
@@ -116,7 +130,7 @@ def cl_rows():
         Row("endian", r"translate_program$", r"^panic!unreachable@u8=212,220;i32!in\[16,32,64\]$", "D3", "LE/BE immediates are 16/32/64", cites=("C06/R06.b",)),
         Row("targets-map", r"translate_program$", r"^index:Index<&Q>>::index\(&\*arg1<&mut cranelift::CraneliftCompiler>\.insn_targets", "D1",
             "the CFG pass inserted an entry for every jump instruction (R12.d)", cites=("R12.d",)),
-        Row("fetch", r"cranelift_compile$", r"^precond:(cranelift::)?CraneliftCompiler::compile_function<-", "D3",
+        Row("fetch", r"^EbpfVm\w+::\w+$", r"^precond:(cranelift::)?CraneliftCompiler::compile_function(@ebpf::get_insn)?<-", "D3",
             "verified program: 8 | len, pc < n, wide loads not last", cites=("C06/R06.d",)),
     ]
 
@@ -173,7 +187,12 @@ def run(rep, tier):
     roots = [r for r in JIT_ROOTS if r in F.fns]
     sites, reach = inv.run(roots)
     rep.analysed(*sorted(reach))
-    stats = sites_to_obligations(rep, ra, sites, jit_rows())
+    gen = cx.roles.jit()
+    try:
+        counter = models.loop_counter_name(F, gen)[0] if gen else None
+    except Exception:
+        counter = None
+    stats = sites_to_obligations(rep, ra, sites, jit_rows(F, counter))
     rep.info("jit_site_stats", stats)
 
     # R12.b two-pass sizing
@@ -361,16 +380,18 @@ def run(rep, tier):
         from dispatch import opcode_matches
         supported = {v for v, d in isa.TABLE.items() if d["kind"] != "tail_call"}
         for label, fnp, F_ in (("jit", jm.fn, F), ("cranelift", ccx.roles.cranelift_translate(), ccx.F)):
-            ms = opcode_matches(F_.fns[fnp], 100) if fnp and fnp in F_.fns else []
+            ms = opcode_matches(F_.fns[fnp], 60) if fnp and fnp in F_.fns else []
             handled = ms[0].handled() if ms else set()
             rep.ob(rg_, label, supported <= handled, "%s: opcodes without an arm" % label, expected=[], found=sorted("%#04x" % v for v in supported - handled))
         rm_ = rep.rule("R12.m", "x86 JIT: pc_locs holds one entry per instruction plus one (indexed by pc and by validated jump targets <= n)", floor=1)
         allocs = []
         fnj = F.fns.get(jm.fn)
+        locs = field_by_type(F, "jit::JitCompiler", r"^(std|alloc)::vec::Vec<usize>$")
         for n in walk(fnj["thir"]["body"]):
-            if n.get("k") == "assign" and "pc_locs" in repr(strip(n["l"]))[:600]:
+            lhs = strip(n["l"]) if n.get("k") == "assign" else None
+            if lhs is not None and lhs.get("k") == "field" and lhs.get("name") == locs and locs is not None:
                 allocs.append(n)
-        okm, foundm = False, "%d assignments to pc_locs" % len(allocs)
+        okm, foundm = False, "%d assignments to the table of code offsets (%s)" % (len(allocs), locs)
         if len(allocs) == 1:
             ev_ = symex.Evaluator(F)
             owner_ = ev_.owner_of(jm.fn)
@@ -408,7 +429,7 @@ def run(rep, tier):
     if tr and cfg:
         tgt_fn = [p for p in reachc if p != cfg and Fc.fns[p].get("thir") and any(
             n.get("k") == "call" and (callee_path(n) or "").endswith("TryInto<U>>::try_into") for n in walk(Fc.fns[p]["thir"]["body"]))]
-        lt = models.LoopModel(Fc, tr, min_arms=100)
+        lt = models.LoopModel(Fc, tr, min_arms=60)
         lc = models.LoopModel(Fc, cfg, min_arms=30, opaque=lambda p: p in tgt_fn)
         TERM = re.compile(r"InstBuilder::(jump|brif|return_|br_table|trap)$")
         PREP = re.compile(r"(BTreeMap<K, V, A>::entry|BTreeMap<K, V, A>::insert|create_block)$|^(%s)$" % "|".join(re.escape(x) for x in tgt_fn))
